@@ -329,6 +329,19 @@ class Lower:
             raise Abort('reinterpret_cast in %s' % self.cur_fn)
         return '((%s)(%s))' % (self.ctype(n['type']), self.E(self.inner(n)[0]))
 
+    def e_CXXNewExpr(self, n):
+        # placement new of a scalar: new (p) T(v)  ==  (*(T *)p = v, (T *)p).  Anything else (allocation, class types) has no rule.
+        if not n.get('isPlacement') or not getattr(self.u, 'ALLOW_REINTERPRET', False):
+            raise Abort('new-expression in %s' % self.cur_fn)
+        t = self.ctype(n['type'])
+        if not t.endswith('*') or t.replace('*', '').strip().startswith('struct'):
+            raise Abort('placement new of a class type in %s' % self.cur_fn)
+        ins = self.inner(n)
+        if len(ins) != 2:
+            raise Abort('placement new form in %s' % self.cur_fn)
+        init, place = ins[0], ins[1]
+        return '(*(%s)(%s) = (%s), (%s)(%s))' % (t, self.E(place), self.E(init), t, self.E(place))
+
     def e_IntegerLiteral(self, n):
         t = self.qt(n)
         v = n['value']
